@@ -181,6 +181,14 @@ fn main() {
 		r.s.mine(1, 2);
 		r.refresh_all(0);
 		r.learn(0);
+		// one history in four: the chain grows past the look-back of the wallet's periodic update (100 blocks)
+		// and the wallet has seen the new tip: what it holds sits far below its last scanned block
+		let long_chain = hseed % 4 == 0;
+		if long_chain {
+			r.s.mine(1, 104);
+			r.refresh_all(0);
+			r.learn(0);
+		}
 		let batch = *r.p.pick(&[1u64, 2, 3, 5, 7, 1000]);
 		r.s.node.pmmr_batch.store(batch, Ordering::Relaxed);
 
@@ -277,7 +285,7 @@ fn main() {
 		let after2 = r.s.snapshot(0);
 		out.line(&json!({"kind": "repair", "seed": hseed.to_string(), "batch": batch, "chain": chain, "del": del,
 			"injected": injected, "view": view, "rc": rc, "before": before, "after": after, "rc2": rc2, "after2": after2,
-			"start": start, "pending": pending}));
+			"start": start, "pending": pending, "long_chain": long_chain}));
 		drop(r);
 		let _ = std::fs::remove_dir_all(&dir);
 	}
